@@ -90,8 +90,36 @@ func typeWordEvalRule(p *core.Program, r *core.Report, rule string) {
 			short = "ewkb"
 		}
 		// ---------------- writers
-		wfn := mustFn(p, r, rule, rel, "Write")
-		if wfn != nil {
+		// the writers: Write, and every function of the package with a geom.T parameter that writes 32-bit words itself
+		// (a worker Write delegates to, which is also what members are written with) - evaluated with every other
+		// parameter unknown, so a type word taken from a parameter instead of the geometry's own layout is not constant
+		var writers []*ssa.Function
+		if w := mustFn(p, r, rule, rel, "Write"); w != nil {
+			writers = append(writers, w)
+			for _, f := range pkgFuncs(p, rel) {
+				if f == w || f.Parent() != nil {
+					continue
+				}
+				hasT, writes := false, false
+				for _, prm := range f.Params {
+					if n, ok := prm.Type().(*types.Named); ok && n.Obj().Name() == "T" && n.Obj().Pkg() != nil && n.Obj().Pkg().Path() == mod {
+						hasT = true
+					}
+				}
+				for _, c := range eng.Calls(f) {
+					if cc, ok := c.(*ssa.Call); ok {
+						if _, isW := isUint32Write(cc); isW {
+							writes = true
+						}
+					}
+				}
+				if hasT && writes {
+					writers = append(writers, f)
+				}
+			}
+		}
+		for _, wfn := range writers {
+
 			gIdx := -1
 			for i, prm := range wfn.Params {
 				if types.IsInterface(prm.Type()) && prm.Name() == "g" {
@@ -106,7 +134,7 @@ func typeWordEvalRule(p *core.Program, r *core.Report, rule string) {
 				}
 			}
 			if gIdx < 0 {
-				r.Lost(rule, short+".Write/geometry-parameter", "no geom.T parameter")
+				r.Lost(rule, short+"."+wfn.Name()+"/geometry-parameter", "no geom.T parameter")
 			} else {
 				eval := func(dyn types.Type, layout int64, srid int64) (words []eng.CVal, reached int) {
 					ev := &eng.ConstEval{Inline: pureTableHelper}
@@ -131,34 +159,22 @@ func typeWordEvalRule(p *core.Program, r *core.Report, rule string) {
 					}
 					args[gIdx] = eng.DynV(dyn)
 					top := ev.RunStable(wfn, args)
-					// 32-bit writes of the top activation in source order
-					type wr struct {
-						pos int
-						v   eng.CVal
-					}
-					var ws []wr
-					for _, b := range wfn.Blocks {
-						if !top.Reach[b] {
-							continue
-						}
-						for _, in := range b.Instrs {
-							if c, ok := in.(*ssa.Call); ok {
-								if v, ok := isUint32Write(c); ok {
-									ws = append(ws, wr{int(c.Pos()), top.Of(v)})
-								}
+					// 32-bit writes in evaluation order (blocks in order, descending into evaluated callees at the
+					// call): the first is the type word, wherever a refactoring put the write
+					eng.WalkReached(top, func(act *eng.CEResult, in ssa.Instruction) {
+						if c, ok := in.(*ssa.Call); ok {
+							if v, ok := isUint32Write(c); ok {
+								words = append(words, act.Of(v))
 							}
 						}
-					}
-					sort.Slice(ws, func(i, j int) bool { return ws[i].pos < ws[j].pos })
-					for _, w := range ws {
-						words = append(words, w.v)
-					}
-					return words, len(ws)
+					})
+					return words, len(words)
 				}
+				_ = sort.Ints
 				for _, tn := range wkbTypeNames {
 					dyn := geomPtrType(p, tn)
 					if dyn == nil {
-						r.Lost(rule, short+".Write/"+tn, "type geom."+tn+" not found")
+						r.Lost(rule, short+"."+wfn.Name()+"/"+tn, "type geom."+tn+" not found")
 						continue
 					}
 					code := specTypeCode["*geom."+tn]
@@ -176,7 +192,7 @@ func typeWordEvalRule(p *core.Program, r *core.Report, rule string) {
 								}
 							}
 							words, n := eval(dyn, lval[l], srid)
-							key := fmt.Sprintf("%s.Write/%s/%s", short, tn, l)
+							key := fmt.Sprintf("%s.%s/%s/%s", short, wfn.Name(), tn, l)
 							if srid != 0 {
 								key += "/srid"
 							}
@@ -208,20 +224,20 @@ func typeWordEvalRule(p *core.Program, r *core.Report, rule string) {
 							} else if got, ok := words[0].Int(); !ok || got != code {
 								badm = "the empty GeometryCollection is written with type word " + words[0].String()
 							}
-							r.Check(badm == "", rule, fmt.Sprintf("%s.Write/%s/NoLayout", short, tn), p.Pos(wfn.Pos()), true, "bare code 7", badm)
+							r.Check(badm == "", rule, fmt.Sprintf("%s.%s/%s/NoLayout", short, wfn.Name(), tn), p.Pos(wfn.Pos()), true, "bare code 7", badm)
 							continue
 						}
 						if tn != "Point" && tn != "GeometryCollection" && tn != "MultiPolygon" {
 							continue // three representatives are enough: the layout test does not depend on the type
 						}
 						_, n := eval(dyn, badL.v, 0)
-						r.Check(n == 0, rule, fmt.Sprintf("%s.Write/%s/%s-rejected", short, tn, badL.name), p.Pos(wfn.Pos()), true, "no 32-bit write reachable", "a geometry with unsupported layout "+badL.name+" reaches the type-word write instead of being rejected with ErrUnsupportedLayout")
+						r.Check(n == 0, rule, fmt.Sprintf("%s.%s/%s/%s-rejected", short, wfn.Name(), tn, badL.name), p.Pos(wfn.Pos()), true, "no 32-bit write reachable", "a geometry with unsupported layout "+badL.name+" reaches the type-word write instead of being rejected with ErrUnsupportedLayout")
 					}
 				}
 				// an unsupported geometry type is rejected
 				if lr := geomPtrType(p, "LinearRing"); lr != nil {
 					_, n := eval(lr, lval["XY"], 0)
-					r.Check(n == 0, rule, short+".Write/LinearRing-rejected", p.Pos(wfn.Pos()), true, "no 32-bit write reachable", "a geometry type without a WKB code reaches the type-word write")
+					r.Check(n == 0, rule, short+"."+wfn.Name()+"/LinearRing-rejected", p.Pos(wfn.Pos()), true, "no 32-bit write reachable", "a geometry type without a WKB code reaches the type-word write")
 				}
 			}
 		}
